@@ -232,6 +232,12 @@ func runOnce(src string, rsize int, mpm bool, p Plan, deadline time.Duration, pr
 		res.Status = "rejected"
 		return res
 	}
+	// since /repo 2d68142 a program whose generated code cannot be assembled is refused: the listing is
+	// written, no machine file is, and the tool says so
+	if res.Machine == nil && (strings.Contains(res.Stdout, "Creating bondmachine failed") || strings.Contains(res.Stdout, "Creating processor failed")) {
+		res.Status = "rejected"
+		return res
+	}
 	res.Status = "ok"
 	return res
 }
